@@ -12,7 +12,11 @@
 (*                              event, the node name, is informational)    *)
 (*   Raised                     that callback raised                       *)
 (*   Q(present)                 nothing is in flight any more: every watch *)
-(*                              event was delivered and fully processed;   *)
+(*                              event was delivered and fully processed    *)
+(*                              and no consumer callback is still running  *)
+(*                              (a callback may block: until it returns    *)
+(*                              the consumer cannot have applied what      *)
+(*                              follows it, and nothing is owed to it);    *)
 (*                              present = data of the nodes now present    *)
 (*   Serve / Deliver / Other    progress markers, no meaning here          *)
 (*                                                                         *)
